@@ -49,10 +49,16 @@ type childArgs struct {
 	CacheDir  string `json:"cache_dir"`
 	URL       string `json:"url"`
 	CacheSize int    `json:"cache_size"`
-	// WaitUnix: scheduling aid for the same-second scenario (0 = none): do not
-	// start the update before this wall-clock second has begun.
-	WaitUnix int64 `json:"wait_unix"`
+	// SameSecFile: scheduling aid for the same-second scenario ("" = none): the
+	// newest earlier version file; the child re-stamps it to the next wall-clock
+	// second and starts the update when that second begins. These preparatory
+	// operations precede the begin marker and are not part of the replayed update.
+	SameSecFile string `json:"same_sec_file"`
 }
+
+// beginMarker: the child opens this (non-existent) path immediately before the
+// update; the trace parser starts the update's operation sequence there.
+const beginMarker = "/VERIF_C45_BEGIN_UPDATE"
 
 // childMain is the traced grand-child: one cache update through the public API.
 func childMain(arg string) {
@@ -68,8 +74,18 @@ func childMain(arg string) {
 	}
 	ctx, cancel := context.WithTimeout(context.Background(), 60*time.Second)
 	defer cancel()
-	for a.WaitUnix > 0 && time.Now().Unix() < a.WaitUnix {
-		time.Sleep(2 * time.Millisecond)
+	if a.SameSecFile != "" {
+		t := time.Now().Unix() + 1
+		if err := os.Rename(a.SameSecFile, filepath.Join(filepath.Dir(a.SameSecFile), fmt.Sprintf("autoconf-%d.json", t))); err != nil {
+			fmt.Println("ERR restamp", err)
+			os.Exit(3)
+		}
+		for time.Now().Unix() < t {
+			time.Sleep(time.Millisecond)
+		}
+	}
+	if f, err := os.Open(beginMarker); err == nil {
+		f.Close()
 	}
 	resp, err := cl.GetLatest(ctx)
 	if err != nil {
@@ -382,6 +398,7 @@ func strArg(a string) ([]byte, bool) {
 }
 
 type traceResult struct {
+	begin        int // index in ops of the first operation after the begin marker (-1: marker not seen)
 	ops          []fileOp
 	unreplayable []string // operations on the cache dir the replayer does not model
 	lines        int
@@ -392,6 +409,11 @@ type traceResult struct {
 // `base`, in order of completion.
 func parseTrace(text, base, cwd string) traceResult {
 	var tr traceResult
+	tr.begin = -1
+	var markerHex strings.Builder
+	for i := 0; i < len(beginMarker); i++ {
+		fmt.Fprintf(&markerHex, "\\x%02x", beginMarker[i])
+	}
 	pending := map[string]string{} // pid -> unfinished prefix
 	fdPath := map[int]string{}     // every successfully opened fd -> absolute path
 	under := func(abs string) (string, bool) {
@@ -438,6 +460,10 @@ func parseTrace(text, base, cwd string) traceResult {
 			continue // signals, exit notices
 		}
 		name, argstr, retS := cm[1], cm[2], cm[3]
+		if (name == "openat" || name == "open") && strings.Contains(argstr, markerHex.String()) {
+			tr.begin = len(tr.ops)
+			continue
+		}
 		ret, err := strconv.ParseInt(retS, 10, 64)
 		if err != nil || ret < 0 {
 			continue // failed / restarted call: no effect on the directory
@@ -736,9 +762,9 @@ func run(c *vlib.Ctx) {
 		c.Note("strace", "not found: "+err.Error())
 		return
 	}
-	c.Cases("update", c.N(24, 208), func(k *vlib.Case) { oneCase(k, "update") })
-	c.Cases("first", c.N(4, 32), func(k *vlib.Case) { oneCase(k, "first") })
-	c.Cases("notmod", c.N(4, 32), func(k *vlib.Case) { oneCase(k, "notmod") })
+	c.Cases("update", c.N(24, 160), func(k *vlib.Case) { oneCase(k, "update") })
+	c.Cases("first", c.N(4, 24), func(k *vlib.Case) { oneCase(k, "first") })
+	c.Cases("notmod", c.N(4, 24), func(k *vlib.Case) { oneCase(k, "notmod") })
 	c.Cases("samesec", c.N(8, 32), func(k *vlib.Case) { oneCase(k, "samesec") })
 }
 
@@ -778,7 +804,7 @@ func oneCase(k *vlib.Case, kind string) {
 	var versions []version
 	restamped := map[string]bool{}
 	var hashDir string
-	var waitUnix int64
+	var sameSecFile string
 	for i := 0; i < earlier; i++ {
 		body, cfg := genPayload(r, int64(2025000000+i))
 		versions = append(versions, version{body, cfg})
@@ -817,11 +843,10 @@ func oneCase(k *vlib.Case, kind string) {
 		}
 		nn := fmt.Sprintf("autoconf-%d.json", 1000000000+1000*(i+1))
 		if kind == "samesec" && last {
-			// scheduling only (never part of the oracle): the newest earlier version is
-			// stamped with a second that lies ~3 s ahead; the traced child starts its
-			// update once that second has begun, i.e. "two updates within one second".
-			waitUnix = time.Now().Unix() + 3
-			nn = fmt.Sprintf("autoconf-%d.json", waitUnix)
+			// scheduling only (never part of the oracle): the traced child re-stamps
+			// this file to the next wall-clock second and runs its update within that
+			// second, i.e. "two updates within one second".
+			sameSecFile = filepath.Join(cacheBase, hashDir, nn)
 		} else {
 			restamped[nn] = true
 		}
@@ -869,7 +894,7 @@ func oneCase(k *vlib.Case, kind string) {
 	if err != nil {
 		panic(err)
 	}
-	argJSON, _ := json.Marshal(childArgs{CacheDir: cacheBase, URL: url, CacheSize: cacheSize, WaitUnix: waitUnix})
+	argJSON, _ := json.Marshal(childArgs{CacheDir: cacheBase, URL: url, CacheSize: cacheSize, SameSecFile: sameSecFile})
 	cmd := exec.Command("strace", "-f", "-qq", "-xx", "-s", "16777216", "-e", "signal=none", "-e", "trace="+traceCalls, "-o", tracePath, exe)
 	cmd.Dir = base
 	cmd.Env = append(os.Environ(), "VERIF_C45_CHILD="+string(argJSON))
@@ -897,6 +922,23 @@ func oneCase(k *vlib.Case, kind string) {
 	}
 	tr := parseTrace(string(traceText), cacheBase, base)
 	post := readTree(cacheBase)
+	if tr.begin < 0 {
+		c.Inconclusive(1)
+		c.Note("begin_marker", "the begin marker of the traced child was not found in the trace")
+		return
+	}
+	if tr.begin > 0 {
+		// preparatory operations of the harness child itself (same-second re-stamp)
+		setup := newReplayer(pre.clone())
+		for _, op := range tr.ops[:tr.begin] {
+			setup.apply(op, -1)
+			if op.kind == "rename" {
+				k.Logf("before the update (harness child): newest earlier version re-stamped to the coming second")
+			}
+		}
+		pre = setup.m
+		tr.ops = tr.ops[tr.begin:]
+	}
 	c.Count("trace_lines", int64(tr.lines))
 	c.Count("traced_file_ops", int64(len(tr.ops)))
 	c.Count("traced_fsyncs", int64(tr.fsyncs))
